@@ -39,7 +39,7 @@ def conn_script(r):
             text = None
             if r.random() < 0.5:
                 # several connections report under the same sender (identical analysers, a shared middleware name)
-                text = b"H|\\^&|||" + r.choice(SENDERS) + b"|||||host||P|1\r" + gens.record_text(r, letter_first=True)
+                text = b"H|\\^&|||" + r.choice(SENDERS) + b"|||||host||P|1|20240101120000\r" + gens.record_text(r, letter_first=True)
             frames, _ = gens.message_frames(r, seq=r.randrange(8), parts=r.choice([1, 2, 3]), text=text)
             for f in frames:
                 if r.random() < 0.15:
